@@ -146,6 +146,7 @@ _CMPOPS = {
     ast.GtE: operator.ge,
 }
 CONCRETE = (bool, int, float, Fraction, str, type(None), tuple, list, dict, set, frozenset)
+_MATH_FUNCS = {"log2", "log10", "log", "ceil", "floor", "sqrt", "exp", "pow", "fabs", "trunc", "isqrt", "log1p"}
 
 
 def is_concrete(v) -> bool:
@@ -261,6 +262,8 @@ class Interp:
             if attr == "__name__":
                 return base.name
             raise Undecided(f"class attribute {base.name}.{attr}")
+        if type(base).__name__ == "SimpleNamespace" and hasattr(base, attr):
+            return getattr(base, attr)
         if isinstance(base, SuperProxy):
             mro = base.obj.cls.mro() if isinstance(base.obj, Obj) else []
             if base.after in mro:
@@ -303,6 +306,24 @@ class Interp:
         return EnumSym(cls, attr)
 
     def external_call(self, name: str, args: list, kwargs: dict, node):
+        if name in ("numpy.iinfo", "numpy.finfo") and args and isinstance(args[0], Sym):
+            t = args[0].name.split(".")[-1].split(":")[-1]
+            table = {"uint8": (8, 0, 2**8 - 1), "uint16": (16, 0, 2**16 - 1), "uint32": (32, 0, 2**32 - 1), "uint64": (64, 0, 2**64 - 1), "int8": (8, -(2**7), 2**7 - 1), "int16": (16, -(2**15), 2**15 - 1), "int32": (32, -(2**31), 2**31 - 1), "int64": (64, -(2**63), 2**63 - 1)}
+            if t in table and name == "numpy.iinfo":
+                import types
+
+                b, lo, hi = table[t]
+                return types.SimpleNamespace(bits=b, min=lo, max=hi, dtype=args[0])
+        # pure scalar mathematics on concrete representatives
+        mod, _, fn = name.rpartition(".")
+        if mod in ("math", "numpy") and fn in _MATH_FUNCS and args and not kwargs and all(isinstance(a, (int, float, Fraction)) and not isinstance(a, bool) for a in args):
+            import math
+
+            try:
+                r = getattr(math, fn)(*[float(a) if isinstance(a, Fraction) and fn not in ("gcd",) else a for a in args])
+            except (ValueError, OverflowError, ZeroDivisionError):
+                raise RaiseSignal("ValueError", node)
+            return r
         return Unknown(f"{name}(...)")
 
     def binop_hook(self, op, l, r, node):
